@@ -113,7 +113,7 @@ def run(ctx):
     wg = f"{CL}:Splitter._get_token"
     ctx.check("token-assembly", wg, any(call_attr(c) == "finish" for c in calls_in(fg)) and any(isinstance(s, ast.AnnAssign) and norm(s.value) == "''.join(self.token)" or isinstance(s, ast.Assign) and norm(s.value) == "''.join(self.token)" for s in walk_own(fg)), "the last state is finished and the token is exactly the join of the accumulated pieces")
     loops = [n for n in walk_own(fg) if isinstance(n, ast.For)]
-    ctx.check("token-assembly", wg, len(loops) == 1 and norm(loops[0].iter) == "self.seq" and any(norm(s) == "state = state.process(next_char, self)" for s in walk_own(loops[0])), "every character of the input sequence is fed to the current state")
+    ctx.check("token-assembly", wg, len(loops) == 1 and norm(loops[0].iter) == "self.seq" and any(isinstance(s, ast.Assign) and isinstance(s.value, ast.Call) and call_attr(s.value) == "process" and call_recv(s.value) == norm(s.targets[0]) and [norm(a) for a in s.value.args] == [norm(loops[0].target), "self"] for s in walk_own(loops[0])), "every character of the input sequence is fed to the current state")
     fp = repo.func(CL, "_PushbackSequence.__next__")
     ctx.check("pushback", f"{CL}:_PushbackSequence.__next__", "self._pushback_buffer.pop()" in norm(fp) and "next(self._iter)" in norm(fp), "a pushed-back character is delivered before the next input character")
 
